@@ -175,6 +175,29 @@ Eval(f, args) ==
       [] f = "opneg" ->
            (LET x == ANumS(a1) IN IF x[1] # "ok" \/ Len(args) # 1 THEN <<IF x[1] = "ok" THEN "undef" ELSE x[1]>>
                                   ELSE VOk(<<MNeg(x[2])>>))
+      [] f \in {"log10", "log", "exp"} ->
+           (* only the arguments with an exact result: the double nearest to 10^k (token <<"p10", k>>), 1, 0, the infinities *)
+           (IF a1[1] = "p10" THEN (IF f = "log10" /\ Len(args) = 1 THEN VOk(<<N(a1[2])>>) ELSE VUndef)
+            ELSE LET x == ANum(a1) IN
+                 IF x[1] # "ok" THEN x
+                 ELSE IF f = "exp"
+                      THEN (CASE IsZeroTok(x[2]) -> VOk(<<N(1)>>)
+                              [] x[2] = Inf(1) -> VOk(<<Inf(1)>>)
+                              [] x[2] = Inf(-1) -> VOk(<<PosZero>>)
+                              [] OTHER -> VUndef)
+                      ELSE (CASE IsZeroTok(x[2]) -> VOk(<<Inf(-1)>>)                  \* log(+-0) = -inf
+                              [] x[2] = N(1) -> VOk(<<PosZero>>)
+                              [] x[2] = Inf(1) -> VOk(<<Inf(1)>>)
+                              [] SignNeg(x[2]) -> VOk(<<NaN>>)
+                              [] OTHER -> VUndef))
+      [] f \in {"deg", "rad"} ->
+           (* <<"degrad", isDeg, x>>: the observed double is judged by MathLib!DegRadOK *)
+           (LET x == ANumWide(a1) IN
+            IF x[1] # "ok" THEN x
+            ELSE IF ~IsFinite(x[2]) \/ D(x[2]).m = 0 THEN VOk(<<x[2]>>)                 \* +-0 and +-inf are kept
+            ELSE LET n == NormME(D(x[2]).m, D(x[2]).e) IN
+                 IF n.e < -1000 \/ n.e + BitLen(Abs(n.m)) > (IF f = "deg" THEN 1017 ELSE 1023) THEN VUndef   \* may leave the normal range
+                 ELSE <<"degrad", f = "deg", x[2]>>)
       [] f = "huge" -> VOk(<<Inf(1)>>)                            \* math.huge = HUGE_VAL
       [] f = "pi" -> VOk(<<<<"x", "3.141592653589793">>>>)          \* the double nearest to pi
       [] f = "ldexp" ->
@@ -210,6 +233,11 @@ Judge(f, args, obs) ==
       [] e[1] = "random" ->
            (IF obs[1] = "ok" /\ Len(obs[2]) = 1 /\ RandomAdmits(e[2], e[3], obs[2][1])
             THEN "ok" ELSE "bad")
+      [] e[1] = "degrad" ->
+           (IF obs[1] = "ok" /\ Len(obs[2]) = 1 /\ obs[2][1][1] = "w"
+            THEN (IF obs[2][1][3] = <<0, 0, 0, 0, 1>> THEN "skip"            \* below a power of two the half-ulp changes
+                  ELSE IF DegRadOK(e[2], e[3], obs[2][1]) THEN "ok" ELSE "bad")
+            ELSE "bad")
       [] OTHER -> (IF obs = e THEN "ok" ELSE "bad")
 
 (* the expectation in printable form (what GEN exports and a verdict shows) *)
